@@ -178,11 +178,28 @@ class Worker:
 
 def _initial_tree(rng, cfg):
     """Returns (tree {relpath: text}, entries [import names], dirs, tags)."""
-    kind = rng.choices(
-        ["catalogue", "corpus", "examples", "soup"], weights=cfg["tree_weights"]
-    )[0]
+    tw = cfg["tree_weights"]
+    kinds = sorted(tw)
+    kind = rng.choices(kinds, weights=[tw[k] for k in kinds])[0]
     tree = {}
     tags = [kind]
+    if kind in ("semsoup", "graph", "worldb"):
+        from worlda import soup
+        entries = []
+        nproj = rng.randint(1, 2)
+        for p in range(nproj):
+            if kind == "semsoup":
+                files, entry, t = soup.semantic_soup(rng)
+            elif kind == "graph":
+                files, entry, t = soup.valid_import_graph(rng)
+            else:
+                files, entry, t = workload.worldb_module(rng)
+            tags.extend(t)
+            d = ["d0", "d1"][p]
+            for name, text in files.items():
+                tree[f"{d}/{name}"] = text
+            entries.append(entry)
+        return tree, entries, ["d0", "d1"][:nproj], tags
     if kind == "corpus":
         corpus = workload.corpus_files()
         names = sorted(corpus)
